@@ -156,6 +156,16 @@ func TestVerifC19(t *testing.T) {
 				case "identical", "hardlinked":
 					st.data = append([]byte(nil), f.Data...)
 				}
+				// any of the regular-file states may have a second hard link outside the target
+				linked := st.kind == "hardlinked"
+				if (st.kind == "shorter" || st.kind == "longer" || st.kind == "different") && tp.Choose(3) == 2 {
+					linked = true
+					if st.kind == "different" && len(st.data) > 1 && tp.Choose(2) == 1 {
+						// differs only at the very end
+						st.data = append([]byte(nil), f.Data...)
+						st.data[len(st.data)-1] ^= 1
+					}
+				}
 				switch st.kind {
 				case "missing":
 				case "symlink":
@@ -164,12 +174,17 @@ func TestVerifC19(t *testing.T) {
 					_ = os.Symlink(victim, p)
 				case "dir":
 					_ = os.Mkdir(p, 0o755)
-				case "hardlinked":
-					other := filepath.Join(outside, "link-"+f.Name)
-					_ = os.WriteFile(other, st.data, 0o644)
-					_ = os.Link(other, p)
 				default:
-					_ = os.WriteFile(p, st.data, 0o644)
+					if linked {
+						other := filepath.Join(outside, "link-"+f.Name)
+						_ = os.WriteFile(other, st.data, 0o644)
+						_ = os.Link(other, p)
+						if st.kind != "hardlinked" {
+							st.kind += "+hardlinked"
+						}
+					} else {
+						_ = os.WriteFile(p, st.data, 0o644)
+					}
 				}
 				if st.kind != "missing" && st.kind != "symlink" && st.kind != "dir" {
 					// older or newer than the snapshot's mtime
